@@ -237,6 +237,41 @@ theorem unresolved_member_reported (cx : Ctx) (c : ClassRef) (methods fields : L
   simp [memberAccessResolved, memberResolved, fieldResolved, lookupMember_none methods name hm,
     lookupMember_none fields name hf]
 
+/-! ## Kind gates -/
+
+/-- A call whose callee is neither a function type nor `any` is always reported. -/
+theorem non_function_call_rejected (t : Ty) : calleeOk t = true ↔ (∃ as r, t = .fn as r) ∨ ∃ p, t = .any p := by
+  cases t <;> simp [calleeOk]
+
+/-- A member access on a primitive, a function or an unbounded type parameter is always reported. -/
+theorem member_object_gate (bg : List Nat) (t : Ty) : memberObjectOk bg t = true ↔
+    (∃ s m i ts, t = .nominal s m i ts) ∨ (∃ n, t = .generic n ∧ n ∈ bg) ∨ ∃ p, t = .any p := by
+  cases t <;> simp [memberObjectOk]
+
+theorem field_tyargs_gate (g : Option Nat) : fieldTyArgsOk g = true ↔ g = none := by
+  cases g <;> simp [fieldTyArgsOk]
+
+/-- A declared class among the (transitive) super types is always reported. -/
+theorem class_as_supertype_rejected (tab : KindTable) (known supers : List (Nat × Nat)) :
+    superKindsOk tab known supers = true ↔
+      ∀ k ∈ supers, k ∈ known → isInterface tab k.1 k.2 = true := by
+  simp only [superKindsOk, List.all_eq_true, Bool.or_eq_true, Bool.not_eq_true', List.contains_eq_mem,
+    decide_eq_false_iff_not, decide_eq_true_eq]
+  constructor
+  · intro h k hk hkn
+    rcases h k hk with h1 | h1
+    · exact absurd hkn h1
+    · exact h1
+  · intro h k hk
+    by_cases hkn : k ∈ known
+    · exact Or.inr (h k hk hkn)
+    · exact Or.inl hkn
+
+/-- A function member inside an interface is always reported. -/
+theorem function_in_interface_rejected (members : List Bool) :
+    interfaceMembersOk false members = true ↔ ∀ m ∈ members, m = true := by
+  simp [interfaceMembersOk]
+
 /-! ## Transitive super types: every reachable cycle is reported -/
 
 /-- the fold step of `resolveSupersF` -/
